@@ -274,7 +274,7 @@ def cbmc_cmd(res, extra=()):
     cmd += ["--object-bits", str(spec.get("object_bits", 10))]
     cmd += spec.get("cbmc_flags", [])
     cmd += list(extra)
-    cmd += ["--json-ui", res.gb2]
+    cmd += ["--verbosity", "8", "--json-ui", res.gb2]
     return cmd
 
 
@@ -292,9 +292,12 @@ def parse_results(res, path):
             m = re.search(r"Runtime Solver: ([\d.e+-]+)s", e["messageText"])
             if m:
                 res.solver_s += float(m.group(1))
-            m = re.search(r"Runtime decision procedure: ([\d.e+-]+)s", e["messageText"])
+            m = re.search(r"Runtime Symex: ([\d.e+-]+)s", e["messageText"])
             if m:
-                res.decision_s = float(m.group(1))
+                res.symex_s = float(m.group(1))
+            m = re.search(r"(\d+) variables, (\d+) clauses", e["messageText"])
+            if m:
+                res.sat_size = (int(m.group(1)), int(m.group(2)))
         if "result" in e:
             found = True
             for r in e["result"]:
@@ -684,7 +687,8 @@ def write_evidence(prop, tier, seed, results, viol, wall):
             "unwind": s.get("unwind_" + tier, s.get("unwind")),
             "obligations": n, "discharged": d, "by_class": hc,
             "backend": "cbmc 6.11.0 / MiniSat 2.2.1 (default SAT)",
-            "solver_s": round(r.solver_s, 2), "wall_s": round(r.wall_s, 1),
+            "solver_s": round(r.solver_s, 2), "symex_s": round(getattr(r, "symex_s", 0.0), 2),
+            "sat_variables_clauses": getattr(r, "sat_size", None), "wall_s": round(r.wall_s, 1),
             "bounded": s.get("bounded"), "no_verdict": r.problems,
             "what": s.get("what", ""),
         })
